@@ -1,11 +1,12 @@
 import Srctools.Proofs.C17
 /-! # C17 — the collapse as a whole factors through the placement (over a field) -/
 namespace C17
-variable {K : Type} [Field K]
+variable {K : Type} [Field K] [CharFold]
 
 /-- The same instance placed somewhere else. -/
 def Inst.at (I : Inst K) (P : Placement K) : Inst K := { I with P := P }
 
+omit [CharFold] in
 theorem Placement.id_R : (Placement.id : Placement K).R = M3.one := rfl
 
 theorem fixupKey_factor (I : Inst K) (v : KVal K) :
@@ -13,6 +14,7 @@ theorem fixupKey_factor (I : Inst K) (v : KVal K) :
   cases v <;>
     simp [fixupKey, KVal.mapGeom, Inst.at, place_id, rot_one, mul_one', Placement.id_R]
 
+omit [CharFold] in
 theorem KVal.mapGeom_comp (P Q : Placement K) (v : KVal K) :
     KVal.mapGeom Q (KVal.mapGeom P v) = KVal.mapGeom (P.comp Q) v := by
   cases v <;> simp [KVal.mapGeom, place_comp, rot_mul, mul_assoc', Placement.comp]
@@ -43,6 +45,7 @@ theorem collapse_factor (T : Template K) (I : Inst K) :
     intro e _
     exact collapseEnt_factor I e
 
+omit [CharFold] in
 theorem Ent.mapGeom_comp {P Q : Placement K} (h : Orth Q.R) (e : Ent K) :
     Ent.mapGeom Q (Ent.mapGeom P e) = Ent.mapGeom (P.comp Q) e := by
   simp only [Ent.mapGeom, List.map_map]
@@ -54,6 +57,7 @@ theorem Ent.mapGeom_comp {P Q : Placement K} (h : Orth Q.R) (e : Ent K) :
     intro b _
     simp only [Function.comp, Solid.localise_comp h]
 
+omit [CharFold] in
 theorem mapGeometry_comp {P Q : Placement K} (h : Orth Q.R) (T : Template K) :
     mapGeometry Q (mapGeometry P T) = mapGeometry (P.comp Q) T := by
   simp only [mapGeometry, List.map_map]
@@ -69,6 +73,7 @@ theorem mapGeometry_comp {P Q : Placement K} (h : Orth Q.R) (T : Template K) :
 def Placement.inv (P : Placement K) : Placement K :=
   ⟨P.R.transpose, rot P.R.transpose ⟨-P.o.x, -P.o.y, -P.o.z⟩⟩
 
+omit [CharFold] in
 theorem Placement.comp_inv_comp (P₁ P₂ : Placement K) (h : Orth P₁.R) :
     P₁.comp (P₁.inv.comp P₂) = P₂ := by
   have hR : P₁.R.mul (P₁.R.transpose.mul P₂.R) = P₂.R := by
@@ -81,6 +86,7 @@ theorem Placement.comp_inv_comp (P₁ P₂ : Placement K) (h : Orth P₁.R) :
   simp only [place, rot, M3.mul, M3.transpose, V3.add, V3.mk.injEq]
   refine ⟨?_, ?_, ?_⟩ <;> ring
 
+omit [CharFold] in
 theorem orth_inv_comp {P₁ P₂ : Placement K} (h₁ : Orth P₁.R.transpose) (h₂ : Orth P₂.R) :
     Orth (P₁.inv.comp P₂).R := by
   simp only [Placement.comp, Placement.inv]
